@@ -60,6 +60,9 @@ type Case struct {
 	External bool     `json:"external,omitempty"`
 	Others   int      `json:"others,omitempty"` // C05: other databases opened in the same process first
 	Variant  int      `json:"variant,omitempty"`
+	// RootStyle: how the root directories are spelled in the configuration: 0 canonical, 1 trailing
+	// slash, 2 doubled slash, 3 a "/./" segment (all name the same directories)
+	RootStyle int `json:"root_style,omitempty"`
 }
 
 // KnownLateWrite is the id of the known finding "writes through ended handles are accepted".
@@ -119,7 +122,16 @@ func newWorldStruct(c Case, r *ev.Result) *World {
 func (w *World) setCfg() {
 	var roots []string
 	for i := 0; i < w.Case.Roots; i++ {
-		roots = append(roots, filepath.Join(w.Dir, fmt.Sprintf("root%d", i)))
+		p := filepath.Join(w.Dir, fmt.Sprintf("root%d", i))
+		switch w.Case.RootStyle {
+		case 1:
+			p += "/"
+		case 2:
+			p = w.Dir + "//" + fmt.Sprintf("root%d", i)
+		case 3:
+			p = w.Dir + "/./" + fmt.Sprintf("root%d", i)
+		}
+		roots = append(roots, p)
 	}
 	w.Cfg = config.Config{
 		Storage: config.Storage{DbPath: filepath.Join(w.Dir, "db"), MaxDirCount: w.Case.MaxDir, RootDirs: roots, GCPeriod: time.Hour},
